@@ -1054,7 +1054,9 @@ func main() {
 	fixedTree := probeCombinePorts()
 	for i := 0; i < *n; i++ {
 		var l line
-		switch k := r.intn(230); {
+		switch k := r.intn(260); {
+		case k >= 230:
+			l = renderHistCase(r, fixedTree)
 		case k >= 200:
 			l = histCase(r)
 		case k < 50:
@@ -1081,6 +1083,9 @@ func main() {
 			l = epCase(r, "ep-ports", fixedTree)
 		default:
 			l = prioCase(r)
+		}
+		if !strings.HasPrefix(l.Coq, "(RenderCase") {
+			l.Coq = "(Prev " + l.Coq + ")"
 		}
 		_ = enc.Encode(l)
 	}
@@ -1638,4 +1643,210 @@ func histCase(r *rng) line {
 		strings.Join(ops, ";"), strings.Join(obs, ";"), coqPkts(pkts))
 	return line{Coq: coq, NT: len(ops) >= 5, Key: coq, Tags: tags,
 		Sample: map[string]any{"kind": "history", "ops": len(ops), "inbound": inbound, "observations": sample}}
+}
+
+// ---------------------------------------------------------------- rendering histories
+
+// Several endpoints with different tier layouts rendered one after the other by the real endpoint manager from ONE
+// PolicySets / policy manager, with and without policies being re-sent in between.  Every rendering is compared with
+// the model and judged by the oracle on its own.
+func renderHistCase(r *rng, fixedTree bool) line {
+	w := genWorld(r, false)
+	// the model's cache holds sets: no duplicate members
+	for id := 1; id <= 3; id++ {
+		seen := map[string]bool{}
+		var ms []gcidr
+		var ss []string
+		for _, c := range w.netSets[id] {
+			k := fmt.Sprintf("%d/%d", c.addr, c.plen)
+			if !seen[k] {
+				seen[k] = true
+				ms = append(ms, c)
+				ss = append(ss, c.text)
+			}
+		}
+		w.netSets[id] = ms
+		w.cache.sets[setName(id)] = ss
+	}
+	ps := newPS(w, r)
+	noHostPrio := ps.VerifFeatures().Acl.AclNoHostRulePriority
+	tags := []string{"kind:render-history"}
+	var ops, obs []string
+	for id := 1; id <= 3; id++ {
+		ops = append(ops, fmt.Sprintf("(ROp (HSetReplace %d %s))", id, coqCidrs(w.netSets[id])))
+	}
+	tierNames := []string{"tier-a", "default", "baseline"}
+	defaultPass := []bool{r.chance(40), r.chance(20), false}
+	type pol struct {
+		id       int
+		tier     int
+		in, out  bool
+		rin, rout []*grule
+	}
+	var pols []*pol
+	var allIn, allOut []*grule
+	genContent := func(q *pol) {
+		portsInPass := r.chance(30)
+		q.rin = genEpRules(r, true, 1+r.intn(3), 40, true, portsInPass)
+		q.rout = genEpRules(r, false, 1+r.intn(3), 40, true, portsInPass)
+		for _, g := range append(append([]*grule{}, q.rin...), q.rout...) {
+			g.ipportSets = nil
+		}
+		// often a leading Pass rule: it sits at the base priority of its tier; half of them match everything
+		anyRule := func(act string) *grule { return &grule{action: act, actionText: act, proto: -1, notProto: -1} }
+		if r.chance(60) && len(q.rin) > 0 {
+			q.rin[0].action, q.rin[0].actionText = "pass", "Pass"
+			if r.chance(50) {
+				q.rin[0] = anyRule("pass")
+			}
+		}
+		if r.chance(60) && len(q.rout) > 0 {
+			q.rout[0].action, q.rout[0].actionText = "pass", "Pass"
+			if r.chance(50) {
+				q.rout[0] = anyRule("pass")
+			}
+		}
+		// the tier after the default tier mostly ends in an allow-everything rule
+		if q.tier == 2 && r.chance(70) {
+			q.rin = append(q.rin, anyRule("allow"))
+			q.rout = append(q.rout, anyRule("allow"))
+		}
+		allIn = append(allIn, q.rin...)
+		allOut = append(allOut, q.rout...)
+	}
+	pid := func(q *pol) *proto.PolicyID {
+		return &proto.PolicyID{Name: fmt.Sprintf("p%d", q.id), Kind: "NetworkPolicy", Namespace: "ns1"}
+	}
+	send := func(q *pol) {
+		toRules := func(gs []*grule, pfx string) []*proto.Rule {
+			var out []*proto.Rule
+			for j, g := range gs {
+				out = append(out, g.toProto(fmt.Sprintf("%s%d", pfx, j)))
+			}
+			return out
+		}
+		windataplane.VerifPolicyManagerOnUpdate(ps, &proto.ActivePolicyUpdate{Id: pid(q), Policy: &proto.Policy{InboundRules: toRules(q.rin, "i"), OutboundRules: toRules(q.rout, "o")}})
+		ops = append(ops, fmt.Sprintf("(ROp (HAddPolicy %d (PS %s %s)))", q.id, coqRuleList(q.rin), coqRuleList(q.rout)))
+	}
+	for ti := range tierNames {
+		n := 1 + r.intn(2)
+		if ti == 2 {
+			n = 1
+		}
+		for j := 0; j < n; j++ {
+			q := &pol{id: len(pols), tier: ti}
+			switch r.intn(4) {
+			case 0:
+				q.in = true
+			case 1:
+				q.out = true
+			default:
+				q.in, q.out = true, true
+			}
+			genContent(q)
+			pols = append(pols, q)
+			send(q)
+		}
+	}
+	var hostAddrs []gcidr
+	var hostStrs []string
+	if r.chance(50) {
+		a := uint32(10<<24 | 200)
+		hostAddrs = append(hostAddrs, gcidr{addr: a, plen: 32})
+		hostStrs = append(hostStrs, ip4(a)+"/32")
+	}
+	nrender := 2 + r.intn(2)
+	var sample []string
+	// the first rendering often ends with the default tier, later ones add the tier after it
+	for k := 0; k < nrender; k++ {
+		if k > 0 && r.chance(30) {
+			q := pols[r.intn(len(pols))]
+			if r.chance(50) {
+				genContent(q)
+				tags = append(tags, "resend:new-content")
+			} else {
+				tags = append(tags, "resend:same-content")
+			}
+			send(q)
+		}
+		use := []bool{r.chance(60), r.chance(85), r.chance(50)}
+		if k == 0 && r.chance(60) {
+			use[2] = false
+		}
+		if k > 0 && r.chance(60) {
+			use[1], use[2] = true, true
+		}
+		if !use[0] && !use[1] && !use[2] {
+			use[1] = true
+		}
+		wep := &proto.WorkloadEndpoint{Name: "pod", Ipv4Nets: []string{"10.65.0.2/32"}}
+		var ct []string
+		var names []string
+		for ti, nm := range tierNames {
+			if !use[ti] {
+				continue
+			}
+			names = append(names, nm)
+			tinfo := &proto.TierInfo{Name: nm, DefaultAction: "Deny"}
+			if defaultPass[ti] {
+				tinfo.DefaultAction = "Pass"
+			}
+			var in, out []string
+			for _, q := range pols {
+				if q.tier != ti {
+					continue
+				}
+				if q.in {
+					tinfo.IngressPolicies = append(tinfo.IngressPolicies, pid(q))
+					in = append(in, strconv.Itoa(q.id))
+				}
+				if q.out {
+					tinfo.EgressPolicies = append(tinfo.EgressPolicies, pid(q))
+					out = append(out, strconv.Itoa(q.id))
+				}
+			}
+			wep.Tiers = append(wep.Tiers, tinfo)
+			ct = append(ct, fmt.Sprintf("(mkIT %s %s [%s] [%s])", coqBool(nm == "default"), coqBool(defaultPass[ti]), strings.Join(in, ";"), strings.Join(out, ";")))
+		}
+		ops = append(ops, fmt.Sprintf("(RRender (mkL [%s] []))", strings.Join(ct, ";")))
+		upd := &proto.WorkloadEndpointUpdate{Id: &proto.WorkloadEndpointID{OrchestratorId: "k8s", WorkloadId: fmt.Sprintf("ns1/pod%d", k), EndpointId: "eth0"}, Endpoint: wep}
+		var got []*hns.ACLPolicy
+		panicked := ""
+		func() {
+			defer func() {
+				if x := recover(); x != nil {
+					panicked = fmt.Sprint(x)
+				}
+			}()
+			var err error
+			got, err = windataplane.VerifRenderEndpoint(&fakeHNS{f: ps.VerifFeatures()}, ps, upd, hostStrs)
+			if err != nil {
+				panic("driver: CompleteDeferredWork failed: " + err.Error())
+			}
+		}()
+		if strings.HasPrefix(panicked, "driver:") {
+			panic(panicked)
+		}
+		if panicked != "" {
+			obs = append(obs, "None")
+		} else {
+			var parts []string
+			for _, a := range got {
+				pr := parseRule(a)
+				rt := "RSwitch"
+				if pr.host {
+					rt = "RHost"
+				}
+				parts = append(parts, fmt.Sprintf("(%s, %s)", rt, pr.coq()))
+			}
+			obs = append(obs, "(Some ["+strings.Join(parts, ";")+"])")
+		}
+		sample = append(sample, fmt.Sprintf("render %d: tiers %v -> %d rules", k, names, len(got)))
+		tags = append(tags, "layout:"+strings.Join(names, "+"))
+	}
+	pin := genPackets(r, w, allIn, 12)
+	pout := genPackets(r, w, allOut, 12)
+	coq := fmt.Sprintf("(RenderCase (mkRHCase 4000 %s %s %s [%s] [%s] %s %s))%%N", coqBool(fixedTree), coqCidrs(hostAddrs), coqBool(noHostPrio),
+		strings.Join(ops, ";"), strings.Join(obs, ";"), coqPkts(pin), coqPkts(pout))
+	return line{Coq: coq, NT: nrender >= 2, Key: coq, Tags: tags, Sample: map[string]any{"kind": "render-history", "renderings": sample}}
 }
